@@ -7,7 +7,7 @@
     from [v] takes [k] steps to the root [r]; [par_val s v] — the value [par] returns.  Clones are
     plain copies: every live copy of a multi-copy history is itself [reach]able
     ([c05_clone_copies_reachable]), so all statements apply to each copy. *)
-From Coq Require Import List Arith Bool.
+From Coq Require Import List Arith NArith Bool.
 From RlibV Require Import C05.Model C05.Spec C05.Proofs C05.ProofsInv C05.ProofsMain C05.Corr C05.ProofsCorr.
 Import ListNotations.
 
@@ -15,6 +15,16 @@ Import ListNotations.
     built by [new]: nothing of the previous history survives, whether the reset grows or shrinks *)
 Theorem c05_reset_is_new : forall (s : dsu) (n : nat), reset s n = Ok (new n).
 Proof. exact reset_is_new. Qed.
+
+(** the call [reset(n)]: a request of more than isize::MAX bytes (n * 8, i.e. n >= 2^60) is refused by the first
+    [resize] ('capacity overflow'): the call panics and has written nothing; every other request behaves as above *)
+Theorem c05_reset_refused : forall (s : dsu) (m : N), (9223372036854775807 < m * 8)%N ->
+  step s (Reset m) = Panic /\ panic_state s (Reset m) = s.
+Proof. exact reset_alloc_overflow. Qed.
+
+Theorem c05_reset_granted : forall (s : dsu) (m : N), (m * 8 <= 9223372036854775807)%N ->
+  step s (Reset m) = Ok (new (N.to_nat m), RU).
+Proof. exact reset_fits. Qed.
 
 (** the invariant (ghost rank and representative function, see [Ghost]) holds initially and every call
     that returns preserves it *)
@@ -41,10 +51,17 @@ Proof. exact history_no_fuel. Qed.
 Theorem c05_no_fuel_exhaustion : forall n es s o, reach n es s -> step s o <> Fuel.
 Proof. exact no_fuel_exhaustion. Qed.
 
-(** a call panics exactly when one of its indices is out of range *)
+(** a call panics exactly when one of its indices is out of range or, for reset, when its buffer request is refused
+    ([in_range]) *)
 Theorem c05_panic_iff_out_of_range : forall n es s o,
   reach n es s -> (step s o = Panic <-> in_range n o = false).
 Proof. exact panic_iff_out_of_range. Qed.
+
+(** a caller that catches the unwind keeps a value of the same history: what a panicking call leaves behind
+    ([panic_state]: the first find of un / check done, nothing else written) is reachable with the same element
+    count and the same union requests, so every statement here holds for it and for what follows *)
+Theorem c05_panic_state_reachable : forall n es s o, reach n es s -> reach n es (panic_state s o).
+Proof. exact panic_state_reach. Qed.
 
 (** check u v <=> (u, v) in the equivalence closure of the unions since the last reset *)
 Theorem c05_partition : forall n es s u v, reach n es s -> u < n -> v < n ->
